@@ -111,6 +111,23 @@ CHECKS['C14'] = dict(
          'equal same-kind defaults.',
     design='4 C14')
 
+CHECKS['C02'] = dict(
+    technique='differential testing against an independent reference '
+              'implementation of the documented pipeline (yv/refsem.py) on '
+              'Hypothesis-generated (model, document) pairs and on a bounded-'
+              'exhaustive enumeration of small documents',
+    text='Generated auto-recognised models (hierarchies, abstract/'
+         'unregistered classes, enums, string-likes also as keys, defaults, '
+         '_yatiml_extra, Any/untyped, date, Path, bool_union_fix, abstract '
+         'containers, declarative savorize ops incl. map_attribute_to_index/'
+         'seq, raising constructors) x documents derived from values, 1-2 '
+         'mutations of them, random trees; plus every document tree of <=3-4 '
+         '(quick) / <=4-5 (thorough) nodes over the key/scalar alphabet of 16 '
+         'portfolio models. Accept/reject must agree with the reference and '
+         'accepted values must be structurally equal (exact classes, Python '
+         'defaults for omitted parameters, ordered plain extras).',
+    design='4 C02')
+
 NOT_YET = 'check not built yet in this session (work in progress)'
 
 
